@@ -422,8 +422,11 @@ class FieldHandler:
 
 
     def handled_elsewhere(self, field: Field) -> None:
-        # Some fields are handled by extract_fields below.
-        pass
+        # Some fields are handled by extract_fields below,
+        # which only runs for modules and classes.
+        if not isinstance(self.obj, model.CanContainImportsDocumentable):
+            field.report('Field "%s" is only supported in module and class docstrings, '
+                         'it is ignored here' % (field.tag,))
 
     handle_ivar = handled_elsewhere
     handle_cvar = handled_elsewhere
